@@ -260,7 +260,11 @@ def check(ctx: Ctx, col: Collector, tier: str) -> None:
         printed = o.value != Const("")
         if printed and not cleared:
             problems.append("a path prints markers without emptying the pending set")
-        if not printed and o.fact(f"truthy:{fst.env[f'self.{PENDING}']!r}") is not False and not cleared:
+        pv = repr(fst.env[f"self.{PENDING}"])
+        # the path established that nothing is pending: by truthiness or by a length test, in either operand order
+        known_empty = o.fact(f"truthy:{pv}") is False or any(v and k.replace(" ", "") in (f"len({pv})==0".replace(" ", ""), f"0==len({pv})".replace(" ", "")) for k, v in o.facts) \
+            or any((not v) and k.replace(" ", "") in (f"len({pv})>0".replace(" ", ""), f"len({pv})>=1".replace(" ", ""), f"truthy:len({pv})".replace(" ", "")) for k, v in o.facts)
+        if not printed and not known_empty and not cleared:
             problems.append("a path drops pending markers without printing them")
     key = f"{GEN}::{GENCLS}.{FLUSH}::prints-and-clears"
     if problems or not fouts:
